@@ -1,0 +1,13 @@
+//go:build verif
+
+package dist
+
+import "time"
+
+// VerifSetLeaseTTL sets the lease period of a provider created by
+// NewKvsLockProvider. It exists only in builds with the `verif` tag: the
+// model-based verification harness uses long leases where time must play no
+// role and short ones to observe renewal and expiry.
+func VerifSetLeaseTTL(p LockProvider, d time.Duration) {
+	p.(*kvsLockProvider).leaseTTL = d
+}
